@@ -242,7 +242,7 @@ theorem nestedMerge_rel {b dr : Bool} {env1 env2 : Env} {o : Option Sh} (he : En
   · exact ⟨by simpa using base.pos, by simpa using base.insp, by simpa using base.ctx, by simpa using base.errs, fun h => by cases h⟩
   · exact ⟨by simpa using base.pos, by simpa using base.insp, by simpa using base.ctx, by simpa using base.errs, fun h => by cases h⟩
 
-theorem nestedMerge_alt_isSome {env : Env} (hk : env.ek ≠ .empty) (st1 si : St) (h : si.alt.isSome = true) :
+theorem nestedMerge_pending {env : Env} (hk : env.ek ≠ .empty) (st1 si : St) (h : si.alt.isSome = true) :
     (nestedMerge env st1 si).alt.isSome = true := by
   unfold nestedMerge
   cases ha : si.alt with
@@ -283,13 +283,13 @@ theorem nestedStep_simW {b dr : Bool} {R1 R2 : Runner} (hR : SimRW b dr R1 R2) {
         · rw [g1, g2]; exact .ok _ (nestedMerge_rel he hr hrj)
         · rw [g1, g2]
           exact .fail (nestedMerge_rel he hr hrj)
-            ⟨nestedMerge_alt_isSome he.ek1 _ _ hsm.1, nestedMerge_alt_isSome he.ek2 _ _ hsm.2⟩
+            ⟨nestedMerge_pending he.ek1 _ _ hsm.1, nestedMerge_pending he.ek2 _ _ hsm.2⟩
         · rw [g1, g2]; exact .panic w
         · rw [g1, g2]; exact .oof
       · rw [f1, f2]
         simp only [Out.andThen]
         exact .fail (nestedMerge_rel he hr hri)
-          ⟨nestedMerge_alt_isSome he.ek1 _ _ hsm.1, nestedMerge_alt_isSome he.ek2 _ _ hsm.2⟩
+          ⟨nestedMerge_pending he.ek1 _ _ hsm.1, nestedMerge_pending he.ek2 _ _ hsm.2⟩
       · rw [f1, f2]; exact .panic w
       · rw [f1, f2]; exact .oof
   · rw [e1, e2]; exact .fail hr hsm
